@@ -16,6 +16,13 @@ ASSUMPTIONS = ["sync/atomic operations are sequentially consistent (Go memory mo
 
 def corpus():
     return [
+        "run prop=C01 mode=file dur=3000 conc=1 file=c:200:1/100ms;c:500:1/100ms body=350 failevery=2",   # C01k: an iteration that outlives its stage keeps its own handle and outcome
+        "run prop=C01 mode=file dur=3000 conc=2 file=c:250:2/100ms;c:600:2/100ms body=300,40 failevery=3",
+        "progress.seq s0,s0,f0,f0,f0,S1000,T",      # C08k: failures that took 0 ns are failures
+        "progress.seq s5,f0,S1,f0,f0,S1,s7,T",
+        "progress.seq f0,T",
+        "progress.stress 8 100000 0 2",
+        "progress.stress 6 100000 5 3",
         "run prop=C01 mode=constant rate=3000000/100ms dist=none dur=250 conc=1 body=400 timeout=5000",   # D22: millions pending when the run ends
         "progress.script s5;S1000[s:s7+f3][f:f9];T",          # D1 witness: completions landing inside a collect
         "progress.script f7;T[f:f9];T",
